@@ -28,6 +28,13 @@ Clause(c) ==
   ELSE IF \E a \in 1..N(c) : c.npixfit[a] # Cardinality(Window(c, a) \ PixSetOf(c.mask)) THEN "npixfit_counts_unmasked_window_pixels"
   ELSE IF \E a \in 1..N(c) : (c.flags[a] % 2 = 1) # (c.npixfit[a] < c.fit[1] * c.fit[2]) THEN "flag_1_iff_window_incomplete"
   ELSE IF \E a \in 1..N(c) : ((c.flags[a] \div 4) % 2 = 1) # (c.flux_fit[a] <= 0) THEN "flag_4_iff_non_positive_flux"
+  \* flag 2: "the fit x and/or y position lies outside of the input data".  Positions in 1/4096 px; the data cover [-1/2, n - 1/2] per axis.
+  \* Decided where the documented meaning is unambiguous: a position in [0, n - 1/2] on both axes is ON the data (flag clear); a position
+  \* below -1/2 or above n on an axis is outside (flag set); the two half-pixel rims in between are don't-cares.
+  ELSE IF \E a \in 1..N(c) : (c.flags[a] \div 2) % 2 = 1 /\ c.x_fit[a] >= 0 /\ c.x_fit[a] <= 4096 * (c.w - 1) + 2048 /\ c.y_fit[a] >= 0 /\ c.y_fit[a] <= 4096 * (c.h - 1) + 2048
+       THEN "flag_2_only_when_fit_position_outside_the_data"
+  ELSE IF \E a \in 1..N(c) : (c.flags[a] \div 2) % 2 = 0 /\ (c.x_fit[a] < -2048 \/ c.x_fit[a] > 4096 * c.w \/ c.y_fit[a] < -2048 \/ c.y_fit[a] > 4096 * c.h)
+       THEN "flag_2_when_fit_position_outside_the_data"
   \* flag 32: the fitted position sits on a bound of its xy_bounds box (gap in 1e-9 px; between 1e-9 and 1e-6 px is a don't-care)
   ELSE IF \E a \in 1..N(c) : c.bound_gap[a] >= 0 /\ c.bound_gap[a] <= 1 /\ (c.flags[a] \div 32) % 2 = 0 THEN "flag_32_when_fit_ends_on_a_bound"
   ELSE IF \E a \in 1..N(c) : (c.bound_gap[a] < 0 \/ c.bound_gap[a] > 1000) /\ (c.flags[a] \div 32) % 2 = 1 THEN "flag_32_only_when_fit_ends_on_a_bound"
